@@ -240,7 +240,10 @@ fn kind_ops<F: FftField + PrimeField, D: Dom<F>>(id: &str, caps: &Caps, thorough
     }
     // ---- transforms
     let general = D::K == "g";
+    let big = F::MODULUS_BIT_SIZE > 128;
+    let top: Vec<usize> = sizes.iter().rev().take(2).copied().collect();
     for &m in &sizes {
+        if general && m > 64 && !top.contains(&m) { continue; } // dispatch only: the code paths are those of kinds r / m
         let d = D::new(m).unwrap();
         let offs = offsets::<F, D>(&d, rng);
         if caps.exhaustive && m <= 4 {
@@ -291,7 +294,7 @@ fn kind_ops<F: FftField + PrimeField, D: Dom<F>>(id: &str, caps: &Caps, thorough
                 transforms::<F, D>(id, &d, offs[len % 2], &c, 3, out);
             }
         } else {
-            let lens = if caps.light { vec![0, 1, m / 4, m / 4 + 1, m] } else { edge_lens(m) };
+            let lens = if caps.light { vec![0, 1, m / 4, m / 4 + 1, m] } else if big && !thorough { vec![0, 1, m / 8 + 1, m / 4, m / 4 + 1, m - 1, m] } else { edge_lens(m) };
             for (li, &len) in lens.iter().enumerate() {
                 let c = rvec::<F>(rng, len);
                 let off = offs[li % 3];
@@ -318,7 +321,7 @@ fn kind_ops<F: FftField + PrimeField, D: Dom<F>>(id: &str, caps: &Caps, thorough
                 if v.is_empty() { "_".into() } else { v.join(",") }
             }));
             let mut pts = points::<F, D>(&d, &cd, rng);
-            if m > 64 { pts.truncate(6); pts.push(rnd(rng)); }
+            if m > 64 { pts.truncate(6); pts.push(rnd(rng)); } else if m > 16 && !thorough { pts.truncate(6); pts.push(rnd(rng)); }
             for tau in pts {
                 out.line(&format!("C07 vanishat {} {}", pfx, h(&tau)), &guarded(|| h(&cd.evaluate_vanishing_polynomial(tau))));
                 out.line(&format!("C07 lagrange {} {}", pfx, h(&tau)), &guarded(|| hl(&cd.evaluate_all_lagrange_coefficients(tau))));
@@ -326,7 +329,7 @@ fn kind_ops<F: FftField + PrimeField, D: Dom<F>>(id: &str, caps: &Caps, thorough
         }
     }
     // ---- filter polynomial, re-indexing
-    let small: Vec<usize> = sizes.iter().copied().filter(|&m| m <= 36).collect();
+    let small: Vec<usize> = sizes.iter().copied().filter(|&m| m <= if thorough { 36 } else { 18 }).collect();
     for &n in &small {
         let d = D::new(n).unwrap();
         for &m in sizes.iter().filter(|&&m| m <= 2 * n.max(2)) {
@@ -351,7 +354,8 @@ fn kind_ops<F: FftField + PrimeField, D: Dom<F>>(id: &str, caps: &Caps, thorough
                     out.line(&format!("C07 filter {}", pfx), &guarded(|| hl(&cd.filter_polynomial(&cs).coeffs)));
                     let contained = n % m == 0 && soff.pow([n as u64]) == doff.pow([n as u64]);
                     if contained {
-                        for tau in [cd.element(0), cd.element(1), cs.element(m - 1), F::zero(), rnd(rng)] {
+                        let taus = if n <= 8 || thorough { vec![cd.element(0), cd.element(1), cs.element(m - 1), F::zero(), rnd(rng)] } else { vec![cd.element(1), cs.element(m - 1), rnd(rng)] };
+                        for tau in taus {
                             out.line(&format!("C07 filterat {} {}", pfx, h(&tau)), &guarded(|| h(&cd.evaluate_filter_polynomial(&cs, tau))));
                         }
                     }
